@@ -2,6 +2,7 @@ import PK.Properties.C13
 open PK
 #print axioms C13_position_opener
 #print axioms C13_posts_do_not_count
+#print axioms C13_blinds_count
 #print axioms C13_later_rounds
 #print axioms C13_heads_up_button_first
 #print axioms C13_low_card
